@@ -58,7 +58,14 @@ REQUIRED_COUNTERS = ['policy_error', 'policy_ignore', 'policy_subtract', 'subtra
                      'quota_as:callable', 'quota_as:lambda', 'votes_all_fraction', 'fraction_zero_vote',
                      'ctor_defaults', 'ctor_positional', 'call_positional', 'call_omit_empty',
                      'same_object_twice', 'after_refusal', 'pre_with_prev_then_without', 'larger_then_smaller',
-                     'other_object_first']
+                     'other_object_first',
+                     # checklist items 10-12
+                     'subtract_tie_hit3', 'tie_4plus_for_3plus_places', 'overaward_2plus:error', 'overaward_2plus:ignore',
+                     'overaward_2plus:subtract', 'quota_below_one', 'total_below_one', 'shares_sum_to_one',
+                     'seats_far_above_voters', 'n_equals_parties', 'n_zero', 'constant_quota_fractional',
+                     'constant_quota_fractional_callable', 'aliasing:prev_nonempty', 'aliasing:max_nonempty'] + [
+                     'cross:%s:%s:%s%s' % (p_, a_, x_, y_) for p_ in ('error', 'ignore', 'subtract') for a_ in 'TF'
+                     for x_ in 'p-' for y_ in 'm-']
 
 
 # ------------------------------------------------------------------------------------------------
@@ -258,6 +265,9 @@ def oracle(case, obs):
             return []
         want = num_str(textbook_quota(case['quota'], case['total'], case['n']))
         return [] if obs == want else [('quota_textbook', f'{case["quota"]}({case["total"]}, {case["n"]}) = {obs}, textbook {want}')]
+    if isinstance(obs, dict) and str(obs.get('err', '')).split(':')[0] in ALIAS_KINDS:
+        # checklist 12: inputs, default arguments, evaluator state and earlier results must survive the call untouched
+        return [('aliasing:' + str(obs['err']), 'the call changed an object it does not own')]
     sp = Spec(case)
     if not sp.in_scope:
         # outside the quantifier (the quota is not positive): nothing is specified about seats, but a refusal has to
@@ -330,6 +340,8 @@ def signature(case, clause):
     """known findings are scoped by (op, input class, symptom group); in the plain class the clause itself"""
     if case['op'] == 'quota':
         return f"quota:{clause}"
+    if clause.startswith('aliasing:'):
+        return f"{case['op']}:{clause.split(':')[0]}:{clause.split(':')[1]}"
     sp = Spec(case)
     if not sp.in_scope:
         return f"{case['op']}:nonpositive_quota:raises" if clause.startswith('raises:') else f"{case['op']}:out_of_scope:{clause}"
@@ -435,12 +447,69 @@ def impl(case):
                 _call(_construct(cls, oc, {}), *_args(other['call'], {}), {})
             except Exception:       # noqa
                 pass
+        earlier = []
         for pre in how.get('pre') or []:       # earlier calls on the SAME object; their outcome (also a refusal) is dropped
             try:
-                _call(ev, *_args(pre, how), how)
+                r0 = _call(ev, *_args(pre, how), how)
+                earlier.append((r0, list(r0.items())))
             except Exception:       # noqa
                 pass
-        return enc_distribution(_call(ev, *_args(case, how), how), NAMES)
+        votes, n, prev, mx = _args(case, how)
+        snap = [_snap(votes), _snap(prev), _snap(mx)]
+        state = _state(ev)
+        try:
+            res = _call(ev, votes, n, prev, mx, how)
+        finally:
+            # aliasing (checklist 12): nothing handed in may change, whether the call returns or refuses
+            changed = [nm for nm, d, s0 in zip(('votes', 'prev_gains', 'max_seats'), (votes, prev, mx), snap) if _snap(d) != s0]
+            if changed:
+                raise AliasingError('InputMutated:' + '+'.join(changed))
+            if any(d != {} for d in (cls.evaluate.__defaults__ or ())):
+                raise AliasingError('DefaultArgumentMutated')
+            if _state(ev) != state:
+                raise AliasingError('EvaluatorStateChanged')
+        if any(res is d for d in (votes, prev, mx)):
+            raise AliasingError('ResultAliasedToInput')
+        if any(list(r0.items()) != items0 for r0, items0 in earlier):
+            raise AliasingError('EarlierResultChanged')
+        out = enc_distribution(res, NAMES)
+        res['__scribble__'] = -7               # scribbling on the returned dict must not reach the inputs or the object
+        if [_snap(votes), _snap(prev), _snap(mx)] != snap or _state(ev) != state:
+            raise AliasingError('ResultSharesStateWithInput')
+        return out
+    obs = guarded(run)
+    if isinstance(obs, dict) and obs.get('err') == 'AliasingError':
+        obs = {'err': _LAST_ALIAS[0]}
+    return obs
+
+
+class AliasingError(Exception):
+    def __init__(self, what):
+        super().__init__(what)
+        _LAST_ALIAS[0] = what
+
+
+_LAST_ALIAS = [None]
+ALIAS_KINDS = ('InputMutated', 'DefaultArgumentMutated', 'EvaluatorStateChanged', 'ResultAliasedToInput',
+               'EarlierResultChanged', 'ResultSharesStateWithInput')
+
+
+def _snap(d):
+    """identity of the keys, the values and the order of a dict handed to the library"""
+    return [(id(k), v) for k, v in d.items()]
+
+
+def _state(o, depth=0):
+    """the evaluator's own __dict__, recursively through the votelib objects it holds (private attributes included)"""
+    out = {}
+    for k, v in vars(o).items():
+        if hasattr(v, '__dict__') and type(v).__module__.startswith('votelib') and depth < 4:
+            out[k] = ('obj', id(v), _state(v, depth + 1))
+        else:
+            out[k] = (id(v), repr(v))
+    return out
+
+
     return guarded(run)
 
 
@@ -693,10 +762,32 @@ def _tag(c):
         return c
     tags = c['_tags']
     sp = Spec(c)
+    if c.get('prev'):
+        tags.append('aliasing:prev_nonempty')
+    if c.get('max'):
+        tags.append('aliasing:max_nonempty')
     if not sp.in_scope:
-        tags.append('nonpositive_quota' if sp.nonpositive_quota else 'out_of_scope')
+        tags.append('n_zero' if c['n'] == 0 else 'nonpositive_quota' if sp.nonpositive_quota else 'out_of_scope')
         return c
     cls = sp.cls()
+    # checklist 10: parameter values outside the usual range but inside the documented one
+    if sp.q < 1:
+        tags.append('quota_below_one')
+    if sp.total_votes < 1:
+        tags.append('total_below_one')
+    if sp.total_votes == 1 and any(x.denominator != 1 for x in sp.v.values()):
+        tags.append('shares_sum_to_one')
+    if sp.n >= 10 * sp.total_votes:
+        tags.append('seats_far_above_voters')
+    if sp.n == len(sp.v):
+        tags.append('n_equals_parties')
+    if c['quota'].startswith('const:') and Fraction(c['quota'][6:]).denominator != 1:
+        tags.append('constant_quota_fractional')
+        if (c.get('how') or {}).get('quota_as') == 'lambda':
+            tags.append('constant_quota_fractional_callable')
+    # checklist 11: every evaluate() argument crossed with every constructor option
+    tags.append('cross:%s:%s:%s%s' % (sp.policy, 'T' if sp.ae else 'F', 'p' if any(sp.prev.values()) else '-',
+                                      'm' if sp.cap else '-'))
     if any(abs(x) > 2 ** 53 for x in sp.v.values()):
         tags.append('beyond_2^53')
     if any(x.denominator != 1 for x in sp.v.values()):
@@ -759,11 +850,15 @@ def _tag(c):
         if qn in ('imperiali', 'hagenbach_bischoff'):
             tags.append('overaward_' + qn)
         tags.append('overaward:' + ('constant' if qn.startswith('const:') else qn))
+        if sp.T - sp.n >= 2:
+            tags.append('overaward_2plus:' + sp.policy)
         if sp.policy == 'subtract':
             s = sp.subtract()
             if s and any(isinstance(k, tuple) for k in s):
                 tags.append('subtract_tie')
             si = sp.subtract_info()
+            if si and si['tie'] and si['in_level'] >= 3:
+                tags.append('subtract_tie_hit3')
             if si:
                 if si['over'] >= 2 and not si['tie'] and not si['consumed']:
                     tags.append('subtract_2plus_untied')
@@ -784,6 +879,8 @@ def _tag(c):
                     tags.append('tie_multi_place')
                 if len(tk[1]) >= 3:
                     tags.append('tie_3plus_members')
+                if len(tk[1]) >= 4 and want[tk] >= 3:
+                    tags.append('tie_4plus_for_3plus_places')
                 if len({sp.base[m] + sp.p[m] for m in tk[1]}) >= 2:
                     tags.append('tie_across_wholes')
                     qn = c['quota']
@@ -914,6 +1011,42 @@ def _directed_audit(rng, k):
     yield oth
 
 
+def _directed_1013(rng, k):
+    """checklist items 10-12: multiplicity of the rare event, arguments x options, unusual but documented ranges"""
+    pol = POLICIES[k % 3]
+    op = ['qd', 'lr'][(k // 3) % 2]
+    ae = (k // 6) % 2 == 0
+    x = rng.choice([1, 7, 10 ** 18])
+    # the same tie group drawn on three times by 'subtract' (four level parties, three withdrawals); 4-6 level parties
+    # contesting 3+ remainder places
+    yield _mk(op, [20 * x] * 4, 5, 'const:' + str(10 * x), ae, 'subtract')
+    yield _mk(op, [20 * x] * 4 + [5 * x], 5, 'const:' + str(10 * x), ae, 'subtract', {OTHER: 0})
+    m = rng.randint(4, 6)
+    yield _mk('lr', [x] * m + [3 * x], m + 3 + 3, 'hare', ae, pol)
+    yield _mk('lr', [x] * m, rng.randint(3, m - 1), 'droop', ae, pol)
+    # two or more seats over-awarded, under every policy
+    for p_ in POLICIES:
+        yield _mk(op, [31 * x, 22 * x + 1, 13 * x + 2], 3, 'const:' + str(10 * x), ae, p_)
+    # fewer voters than seats, seats far above the voters, quota below one vote, sub-unit and rational totals,
+    # shares summing to one
+    yield _mk(op, [3, 2], rng.choice([50, 400]), rng.choice(['hare', 'hagenbach_bischoff', 'imperiali', 'droop']), ae, pol)
+    yield _mk(op, [Fraction(1, 2), Fraction(1, 3), Fraction(1, 6)], rng.choice([6, 7, 12]),
+              rng.choice(['hare', 'hagenbach_bischoff', 'imperiali']), ae, pol)
+    yield _mk(op, [Fraction(1, 4), Fraction(1, 5), 0], rng.choice([3, 9]), rng.choice(['hare', 'imperiali', 'droop']), ae, pol)
+    yield _mk(op, [Fraction(2, 7), Fraction(5, 7)], 7, 'const:1/7', ae, pol)
+    yield dict(_mk(op, [Fraction(7, 2), Fraction(5, 3), 1], 4, 'const:' + rng.choice(['3/4', '5/3', '1/2']), ae, pol),
+               how={'quota_as': 'lambda'})
+    yield _mk(op, [5 * x, 3 * x, 2 * x], 3, rng.choice(QUOTAS), ae, pol)          # n = number of parties
+    # n_seats = 0 where the quota admits it
+    yield _mk(op, [7, 3], 0, rng.choice(['droop', 'hagenbach_bischoff', 'imperiali', 'const:2']), ae, pol)
+    # prev_gains x max_seats x policy x accept_equal, all sixteen argument patterns of this round's option pair
+    vals = [50 * x, 30 * x, 20 * x, 0]
+    for pr in ({}, {0: 2, OTHER: 1}, {1: 4}, {0: 1, 2: 1}):
+        for mx in ({}, {0: 3}, {1: 2, 3: 0}, {0: 4, 2: 2}):
+            for p_, a_ in ((pol, ae), (POLICIES[(k + 1) % 3], not ae)):
+                yield _mk(op, vals, rng.choice([6, 10]), QUOTAS[(k + len(pr) + len(mx)) % len(QUOTAS)], a_, p_, pr, mx)
+
+
 def _vary_how(rng, c):
     """random cases: every third one is built / called differently, every seventh one on a used object"""
     how = {}
@@ -943,7 +1076,7 @@ def generate(rng, tier):
     D = 12 if tier == 'quick' else 200
     Q = 300 if tier == 'quick' else 5000
     for k in range(D):
-        for j, c in enumerate(itertools.chain(_directed(rng, k), _directed_audit(rng, k))):
+        for j, c in enumerate(itertools.chain(_directed(rng, k), _directed_audit(rng, k), _directed_1013(rng, k))):
             c['_tags'].append('directed')
             mode = NAME_MODES[(k + j) % len(NAME_MODES)]          # every directed shape under every naming mode
             if mode != 'str':
